@@ -3465,6 +3465,18 @@ class StateEngine(object):
                 ):
                     self.branch_metadata[execution_arn].cancelled = True
 
+                """
+                If this Map or Parallel state has already been terminated (one
+                of its Branches failed earlier, or an enclosing state did) the
+                failure of another Branch, e.g. one that was past the point
+                where it could be cancelled, must not fail the state a second
+                time (end the execution again or run its Catcher again). Treat
+                it like the termination of that Branch and only tidy up.
+                """
+                if "terminated" in branch_results and error != "Task.Terminated":
+                    error = "Task.Terminated"
+                    cause = "Task has been Terminated"
+
                 # Set range to terminate subsequent branches/iterations
                 branch_results["terminated"] = str(start) + ":" + str(end)
 
